@@ -51,6 +51,7 @@ fn spec(label: &str, consts: AfConsts, twin: bool) -> AfSpec {
         twin,
         permissioned: false,
         trade_enable_timestamp: None,
+        tfee: None,
     }
 }
 
@@ -60,6 +61,12 @@ fn specs(thorough: bool) -> Vec<AfSpec> {
         spec("c14-gs16-max25000", AfConsts { filter: 30, decay: 600, reduction: 5000, control: 99_999, max_acc: 25_000, group: 16, threshold: 64 }, false),
         // group = spacing, wide core range, reaches the 10% hard limit at 5 groups; decay period above the one-hour reference age
         spec("c14-gs64-max60000", AfConsts { filter: 1000, decay: 4000, reduction: 9999, control: 99_999, max_acc: 60_000, group: 64, threshold: 128 }, false),
+        // both mints carry a 1 % Token-2022 transfer fee: the v2 handler converts amounts around the swap and rebuilds its result
+        {
+            let mut s = spec("c14-gs16-tfee", AfConsts { filter: 30, decay: 600, reduction: 5000, control: 99_999, max_acc: 25_000, group: 16, threshold: 64 }, false);
+            s.tfee = Some((100, 5_000));
+            s
+        },
         // control factor 0 with a static-fee twin
         spec("c14-cf0-twin", AfConsts { filter: 30, decay: 600, reduction: 5000, control: 0, max_acc: 80_000, group: 16, threshold: 64 }, true),
     ];
@@ -420,11 +427,21 @@ fn retune_oracle(pre: &Ledger, st: &AStepped, w: &AfWorld, cs: &CSet, s: &mut AS
             v1.acc, v1.vref, want.max_acc
         ));
     }
-    // The handler resets the variables on every change. The statement does not demand that (only the bound above and, for
-    // every later swap, consistency with whatever is stored), so a different choice is counted, not reported.
+    // The handler resets the variables on every change. The statement does not demand that in general (only the bound above
+    // and, for every later swap, consistency with whatever is stored), so a different choice is counted, not reported — except
+    // when the tick-group SIZE changes: reference group and accumulator are counted in tick groups, so a value kept across the
+    // change denotes another place / another distance, and the next swap inside the filter period would be charged for a
+    // distance from a group the price was never in ("the adaptive rate determined by that price's tick-group distance from the
+    // reference group").
     let reset = RV { lru: 0, lms: 0, vref: 0, gref: 0, acc: 0 };
     if v1 != reset {
         s.retune_left_history += 1;
+        if want.group != before.group && v0 != reset {
+            return Err(format!(
+                "set_adaptive_fee_constants changed the tick group size {} -> {} but kept the variables {v1:?} (before: {v0:?}): reference group and accumulator are counted in tick groups of the OLD size",
+                before.group, want.group
+            ));
+        }
     }
     Ok(())
 }
